@@ -3,6 +3,7 @@ package c05
 
 import (
 	"fmt"
+	"slices"
 	"sort"
 	"strings"
 	"testing"
@@ -66,8 +67,15 @@ func check(c Case) (res vh.Result) {
 	if id := synex.Excluded(synex.NewCtx(c.Src, c.Lang, f, c.Cfg)); id != "" {
 		return vh.Result{Skipped: true, Classes: []string{"excluded:" + id}}
 	}
+	// The two ordering findings only move a comment: inside their classes the
+	// sequence is still compared as a multiset, so a lost or duplicated
+	// comment is reported there too.
+	orderOnly := ""
 	if id := excluded(c, f); id != "" {
-		return vh.Result{Skipped: true, Classes: []string{"excluded:" + id}}
+		if id != "C05-hdoc-line-comment-order" && id != "C05-comment-after-multiline-subst" {
+			return vh.Result{Skipped: true, Classes: []string{"excluded:" + id}}
+		}
+		orderOnly = id
 	}
 	before := comments(f)
 	want := texts(before)
@@ -101,6 +109,12 @@ func check(c Case) (res vh.Result) {
 			return vh.Fail("Minify kept the wrong comments: got %q, want %q\noutput: %q", got, exp, out)
 		}
 		return res
+	}
+	if orderOnly != "" {
+		res.Classes = append(res.Classes, "multiset-only:"+orderOnly)
+		got, want = slices.Clone(got), slices.Clone(want)
+		sort.Strings(got)
+		sort.Strings(want)
 	}
 	if len(got) != len(want) {
 		return vh.Fail("formatting changed the number of comments from %d to %d: %q became %q\noutput: %q", len(want), len(got), want, got, out)
